@@ -382,6 +382,74 @@ class GlobalOpt(Position):
         return ([[s, '-DG=1', '-DL=1']], [[s, '-Wl,-g', '-Wl,-l']])
 
 
+
+def name_admissible(s):
+    """path-component domain: no separators, not . or .., no leading ~ (user expansion),
+    no drive-letter form, no leading/trailing space"""
+    if '/' in s or '\\' in s or s in ('', '.', '..') or s.startswith('~'):
+        return False
+    if len(s) >= 2 and s[1] == ':' and s[0].isalpha():
+        return False
+    return s.strip(' ') == s
+
+
+TEMPLATE = 'QXZ'
+
+
+class FilePosition(Position):
+    """positions where the string names a FILE: the expected argv is obtained from a
+    reference item with the benign name QXZ in the same project (template substitution)"""
+    needs_nonempty = True
+    uses_template = True
+
+    def admissible(self, s, info):
+        # Ninja's lexer ends a path at `|` and the manifest language has no escape for it
+        # ($$, $space, $: and $newline are the only ones): such names cannot be written as a
+        # build-statement path at all, so the property is silent about them (rule 3).
+        if info.get('backend') == 'ninja' and '|' in s:
+            return False
+        return name_admissible(s) and TEMPLATE not in s
+
+    def files(self, strings):
+        return {os.path.join('fd', s, 'f.txt'): 'x' for s in strings}
+
+
+class FileInCommand(FilePosition):
+    name = 'file_in_command'
+
+    def script(self, strings):
+        return '\n'.join(
+            "command('c%d', cmd=['rec', 'ID%d', source_file(%s), directory(%s)])"
+            % (i, i, py('fd/' + s + '/f.txt'), py('fd/' + s + '/'))
+            for i, s in enumerate(strings)) + '\n'
+
+    def observe(self, i, s, recs):
+        r = _find(recs, lambda r: r['tool'] == 'rec' and r['argv'][1:2] == ['ID%d' % i])
+        return [x['argv'][2:] for x in r]
+
+
+class CopyPath(FilePosition):
+    def __init__(self, mode, desc):
+        self.mode, self.desc = mode, desc
+        self.name = 'copy_file_%s%s' % (mode, '_described' if desc else '')
+
+    def script(self, strings):
+        d = ", description='copying'" if self.desc else ''
+        return '\n'.join(
+            "copy_file(%s, %s, mode=%r%s)" % (py('out%d/%s.txt' % (i, s)),
+                                             py('fd/' + s + '/f.txt'), self.mode, d)
+            for i, s in enumerate(strings)) + '\n'
+
+    def targets(self, strings):
+        return ['out%d/%s.txt' % (i, s) for i, s in enumerate(strings)]
+
+    def observe(self, i, s, recs):
+        pre = 'out%d/' % i
+        r = _find(recs, lambda r: r['tool'] in ('cp', 'ln') and
+                  any(a.startswith(pre) or ('/' + pre) in a for a in r['argv']))
+        return [[a.replace(pre, 'out#/') for a in x['argv']] for x in r]
+
+
 POSITIONS = [CmdArg(), CmdArgEnvBoth(), BuildStepArg(), CmdWord(), EnvValue(), TestArg(),
              DriverArg(False), DriverArg(True), DriverWord(), CompileOpt(), DefineOpt(),
              LinkOpt(), GlobalOpt()]
@@ -395,7 +463,7 @@ class Runner:
         self.backend = backend
         self.root = core.worker_dir()
         self.bin = os.path.join(self.root, 'bin')
-        bfg.make_stubbin(self.bin, extra=['rec', 'drv'])
+        bfg.make_stubbin(self.bin, extra=['rec', 'drv', 'cp', 'ln'])
         self.env = bfg.base_env(self.bin)
         self.n = 0
 
@@ -407,6 +475,9 @@ class Runner:
 
     def run(self, pos, strings, inproc=True, keep=False):
         """-> list of observed values (None where nothing was observed), diagnostic"""
+        tmpl = getattr(pos, 'uses_template', False)
+        if tmpl:
+            strings = [TEMPLATE] + list(strings)
         self.n += 1
         d = os.path.join(self.root, 'p%d' % self.n)
         shutil.rmtree(d, ignore_errors=True)
@@ -430,10 +501,26 @@ class Runner:
             diag = 'build rc=%d: %s' % (rc, out[-600:])
         if not keep:
             shutil.rmtree(d, ignore_errors=True)
+        self.template = None
+        if tmpl:
+            self.template = json.loads(json.dumps(obs[0]).replace(json.dumps(src)[1:-1], '<src>'))
+            obs = [json.loads(json.dumps(o).replace(json.dumps(src)[1:-1], '<src>')) for o in obs[1:]]
+            if not self.template:
+                diag = 'TEMPLATE ITEM NOT OBSERVED; ' + diag
         return obs, diag, src
 
 
-def expected_for(pos, s, src):
+def subst(obj, s):
+    if isinstance(obj, str):
+        return obj.replace(TEMPLATE, s)
+    if isinstance(obj, (list, tuple)):
+        return type(obj)(subst(x, s) for x in obj)
+    return obj
+
+
+def expected_for(pos, s, src, template=None):
+    if getattr(pos, 'uses_template', False):
+        return subst(template, s) if template else None
     if pos.name == 'include_dir':
         return [['-I' + os.path.join(src, 'inc', s)]]
     return pos.expected(s)
@@ -476,7 +563,7 @@ def _work(arg):
         evals += 1
         suspects = []
         for s, o in zip(batch, obs):
-            if o == expected_for(pos, s, src):
+            if o == expected_for(pos, s, src, rn.template) and o:
                 results.append((s, True, None, ''))
             else:
                 suspects.append(s)
@@ -486,7 +573,7 @@ def _work(arg):
                 evals += 1
             else:
                 o1, d1, src1 = obs, diag, src
-            if o1[0] == expected_for(pos, s, src1):
+            if o1[0] == expected_for(pos, s, src1, rn.template) and o1[0]:
                 results.append((s, True, None, ''))
             else:
                 results.append((s, False, o1[0], d1))
@@ -508,13 +595,14 @@ def confirm(backend, posname, s, times=2):
     for _ in range(times):
         o, d, src = rn.run(pos, [s], inproc=False)
         norm = json.loads(json.dumps(o[0]).replace(json.dumps(src)[1:-1], '<src>'))
-        outs.append((o[0] == expected_for(pos, s, src), norm, d.replace(src, '<src>')))
+        outs.append((bool(o[0]) and o[0] == expected_for(pos, s, src, rn.template), norm,
+                     d.replace(src, '<src>')))
     return outs
 
 
 def run_positions(ctx, backend, positions, strings, small):
     pid = ctx.pid
-    info = {'cmdwords': sh_command_words(strings)}
+    info = {'cmdwords': sh_command_words(strings), 'backend': backend}
     shards = []
     excluded = {}
     for pos in positions:
@@ -555,7 +643,7 @@ def run_positions(ctx, backend, positions, strings, small):
             if all(c[0] for c in conf):
                 raise core.HarnessError(
                     'in-process failure not reproduced through the CLI: %s %r' % (posname, s))
-            if not all(not c[0] for c in conf) or repr(conf[0][1]) != repr(conf[1][1]):
+            if not all(not c[0] for c in conf):
                 raise core.HarnessError('nondeterministic confirmation for %s %r: %r'
                                         % (posname, s, conf))
             ctx.violation(
